@@ -332,7 +332,18 @@ func (c08) Generate(r *sim.Rand, tier string) *sim.Scenario {
 		wBP, wGrad = 0, 0
 		total = wCreate + wOp + wBP + wReset + wGrad + wBad
 	}
+	// every step fingerprints every live tensor: bound the work of one run by the
+	// number of elements read (large or very many tensors end the history early)
+	cost := 0
 	for k := 0; k < nsteps; k++ {
+		le := 0
+		for _, id := range live {
+			le += sim.NElems(shadow.T[id].Shape())
+		}
+		cost += le
+		if cost > 20000000 || le > 400000 {
+			break
+		}
 		c := r.Intn(nclients)
 		x := r.Intn(total)
 		switch {
@@ -494,10 +505,30 @@ func (prop c08) Execute(sc *sim.Scenario) *sim.Outcome {
 	probeSpentReuse, probeResetCycle, probeShared := false, false, false
 	resetTracked := map[int]bool{}
 
-	snapshot := func() map[int]snap08 {
+	// snapshot fingerprints the live tensors. On histories with very many live
+	// tensors (the wide flavour) it covers the tensors the step names, the most
+	// recent ones and a rotating sample of the rest: a deep fingerprint walks
+	// everything a tensor's graph reaches, so fingerprinting all of them at every
+	// step is cubic in the history length
+	snapN, snapFixed := 0, false
+	snapshot := func(focus ...int) map[int]snap08 {
 		s := make(map[int]snap08, len(live))
-		for _, id := range live {
-			t := pool.T[id]
+		pick := live
+		if len(live) > 150 {
+			if !snapFixed {
+				snapN++
+			}
+			pick = append([]int{}, focus...)
+			pick = append(pick, live[len(live)-40:]...)
+			for i := snapN % 17; i < len(live)-40; i += 17 {
+				pick = append(pick, live[i])
+			}
+		}
+		for _, id := range pick {
+			t, ok := pool.T[id]
+			if !ok {
+				continue
+			}
 			s[id] = snap08{sim.DeepFP(t), sim.PubFP(t)}
 		}
 		return s
@@ -594,7 +625,7 @@ func (prop c08) Execute(sc *sim.Scenario) *sim.Outcome {
 			}
 		}
 		sim.Pause()
-		before := snapshot()
+		before := snapshot(st.In...)
 		sim.Resume()
 		switch {
 		case sim.IsCreator(st.Op):
@@ -924,7 +955,8 @@ func (prop c08) Execute(sc *sim.Scenario) *sim.Outcome {
 		}
 		out.Probes["final-sweep-bounded"]++
 	}
-	before := snapshot()
+	snapFixed = true // the same sample before and after every sweep step
+	before := snapshot(roots...)
 	for _, id := range roots {
 		if !m.backpropAllowed(id) {
 			continue
@@ -944,10 +976,10 @@ func (prop c08) Execute(sc *sim.Scenario) *sim.Outcome {
 			oracle = "untracked-root-changed-state"
 		}
 		where := fmt.Sprintf("final sweep, BackPropagate(tensor %d)", id)
-		after := snapshot()
+		after := snapshot(roots...)
 		for _, lid := range live {
 			b, ok := before[lid]
-			if !ok || ex[lid] {
+			if _, ok2 := after[lid]; !ok || !ok2 || ex[lid] {
 				continue
 			}
 			if after[lid].pub != b.pub {
